@@ -41,7 +41,7 @@ extract = P.extract
 
 def run(ctx, model=True):
     res = P.run(ctx, "C05", "C05", 1100, 25000, model=model, rule=RULE)
-    RP.add_to(res, ["classic-flyer", "nonrewindable-region"])
+    RP.add_to(res, ["classic-flyer", "nonrewindable-region", "noreplay-pause"])
     return res
 
 
